@@ -40,6 +40,7 @@ type scenario struct {
 	TraceOut   string                 `json:"trace_out"`
 	ResultOut  string                 `json:"result_out"`
 	PrepareN   int                    `json:"prepare_n"` // prepare the workflow this many extra times (unused copies)
+	PreparePar int                    `json:"prepare_parallel"` // additionally prepare it this many times concurrently
 	SettleMS   int                    `json:"settle_ms"`
 	MaxStackMB int                    `json:"max_stack_mb"`
 	// engine mode: go through engine.New / Parse / Run (the embeddable API the CLI uses)
@@ -213,6 +214,19 @@ func cmdRun(path string) int {
 		if _, err := prepare(reg, cfg, logger, sc.Files, sc.Main); err != nil {
 			res.Info["extra_prepare_err"] = err.Error()
 		}
+	}
+	if sc.PreparePar > 0 && !sc.Engine {
+		var pwg sync.WaitGroup
+		for i := 0; i < sc.PreparePar; i++ {
+			pwg.Add(1)
+			go func() {
+				defer pwg.Done()
+				if _, err := prepare(reg, cfg, logger, sc.Files, sc.Main); err != nil {
+					snk.note("XPrepareErr", "err", err)
+				}
+			}()
+		}
+		pwg.Wait()
 	}
 	book.phase.Store("run")
 	snk.note("XPhase", "phase", "run")
